@@ -50,7 +50,9 @@ Exceptions that are BaseException but not Exception (a harness class, asyncio.Ca
 SystemExit, KeyboardInterrupt) are raised by program nodes and delivered as failing X outcomes in
 all three compilations; like any uncaught exception they must become the failure of the returned
 Deferred (never propagate out of the starting call, never unwind into the code that fired the
-awaited Deferred).  GeneratorExit is not used.  All driving calls of the harness catch BaseException.
+awaited Deferred).  GeneratorExit is not used.  A quarter of the
+failing X_k hand their exception over in an instance of a harness SUBCLASS of Failure (errback(SubFailure(exc)) or a
+callback returning it): the function must see the exception raised exactly as with a plain Failure.  All driving calls of the harness catch BaseException.
 
 Guards: programs never return a Deferred, never use returnValue, never re-await a Deferred (each
 dynamic await gets its own X_k), never yield a fired-and-consumed Deferred; a function that
@@ -94,7 +96,7 @@ FLOORS = {"runs_compared_with_sync_replay": 5000, "await_observations_checked": 
           "runs_ending_suspended_on_never_unpaused_deferred": 200, "cancellations_while_awaiting_paused_deferred": 300,
           "baseexception_failures_fired_into_awaited_deferreds": 1000, "baseexception_observed_at_await": 500,
           "baseexception_final_outcomes": 300, "baseexception_raised_before_first_suspension": 50,
-          "returnvalue_calls": 1000, "reentrant_cancels_while_root_running": 500}
+          "returnvalue_calls": 1000, "awaits_failing_with_failure_subclass": 1000, "reentrant_cancels_while_root_running": 500}
 READY = True
 
 M = 10
@@ -117,7 +119,11 @@ def _tw():
                 self.cancel_calls += 1
                 defer.Deferred.cancel(self)
 
-        _T.update(defer=defer, Failure=Failure, XD=XD)
+        class SubFailure(Failure):
+            """An application subclass of Failure (like pb.CopiedFailure): must be thrown into the function like any failure."""
+            extra_context = "harness"
+
+        _T.update(defer=defer, Failure=Failure, XD=XD, SubFailure=SubFailure)
     return _T
 
 
@@ -480,7 +486,10 @@ def make_plan(rng):
                      "ok": rng.random() < okp,
                      "cmode": rng.choice(CMODES) if rng.random() < 0.6 else "default",
                      "chained": rng.random() < 0.2, "hot": None, "steal": False, "paused": None,
-                     "exc": rng.choice(EXC_KINDS[1:]) if rng.random() < 0.15 else "boom"})
+                     "exc": rng.choice(EXC_KINDS[1:]) if rng.random() < 0.15 else "boom",
+                     # a failing X_k may carry its exception in an instance of a Failure SUBCLASS, handed over by
+                     # errback(SubFailure(exc)) or produced by a callback returning it
+                     "subf": rng.choice(("errback", "callback")) if rng.random() < 0.25 else None})
     if rng.random() < 0.4:
         # "hot" X_k: carries a callback that first fires the Deferred the function is waiting on (so the
         # function is resumed, and may await X_k, while X_k is running that callback) and then returns a
@@ -540,6 +549,7 @@ class AsyncRun:
         self.base = [None] * M            # result of the source stage: (ok, token, exception object)
         self.acts = [list(p.get("acts", ())) for p in plan]
         self.cx, self.op_exc = {}, {}
+        self.subf_fired = set()
         self.resumed_while_paused = None
         self.model_problem = None
         self.stuck = None                 # k if the run legitimately ends suspended on a never-unpaused X_k
@@ -582,6 +592,8 @@ class AsyncRun:
                 x.addCallback(lambda _, y=y: y)
             else:
                 x = y = XD(self.canceller(k))
+                if p.get("subf") == "callback" and not p["ok"]:
+                    x.addCallback(self.to_subfailure, k)
             if p["paused"]:
                 if p["paused"]["when"] == "build":
                     x.pause()
@@ -663,11 +675,24 @@ class AsyncRun:
             self.ctx.count("baseexception_failures_fired_into_awaited_deferreds")
         return (False, self.h.tok(e), e)
 
-    def fire_d(self, d, o):
+    def to_subfailure(self, v, k):
+        """Pre-attached callback of a plain failing X_k: turns the harness's firing into a SubFailure result."""
+        if v == ("to-subfailure", k):
+            return _tw()["SubFailure"](self.base[k][2])
+        return v
+
+    def fire_d(self, d, o, k=None):
         if o[0]:
             d.callback(o[1])
-        else:
-            d.errback(o[2])
+            return
+        subf = self.plan[k].get("subf") if k is not None else None
+        if subf:
+            self.subf_fired.add(k)
+            self.ctx.count("failure_subclass_failures_fired")
+            if subf == "callback" and d is self.h.xs[k] and not self.plan[k]["hot"] and not self.plan[k]["chained"]:
+                return d.callback(("to-subfailure", k))
+            return d.errback(_tw()["SubFailure"](o[2]))
+        d.errback(o[2])
 
     def do_src(self, k):
         h, p = self.h, self.plan[k]
@@ -677,7 +702,7 @@ class AsyncRun:
         else:
             self.base[k] = self.planned(k)
             self.x_called[k] = True
-            self.fire_d(h.ys[k], self.base[k])
+            self.fire_d(h.ys[k], self.base[k], k)
 
     def act(self, k, only=None):
         """Perform X_k's next scheduled action (skipping those a cancellation has made moot)."""
@@ -696,7 +721,7 @@ class AsyncRun:
                 if self.base[k] is not None or self.relay_state[k] == "skipped":
                     continue
                 self.base[k] = self.planned(k)
-                return self.fire_d(h.ys[k], self.base[k])
+                return self.fire_d(h.ys[k], self.base[k], k)
             if a == "pause":
                 if h.outcome[k] is not None:
                     continue                     # already delivered: pausing it now concerns nobody
@@ -927,6 +952,8 @@ def check_run(ctx, ns, h, fl, plan, order, cancel_at, info):
             ctx.count("failures_thrown_into_function")
             if n[3][0] == "base":
                 ctx.count("baseexception_observed_at_await")
+            if n[1] in a.subf_fired:
+                ctx.count("awaits_failing_with_failure_subclass")
         want = None if o is None else (("v", o[1]) if o[0] else ("x", o[1]))
         if want != (n[2], n[3]):
             key = "await-observed-wrong-outcome"
@@ -934,6 +961,8 @@ def check_run(ctx, ns, h, fl, plan, order, cancel_at, info):
                 key = "await-observed-none-instead-of-result"
             elif want and want[0] == "x" and n[2] == "x":
                 key = "await-observed-different-exception"
+            if n[2] == "v" and isinstance(n[3], _tw()["Failure"]):
+                key = "failure-object-delivered-as-value-instead-of-raised"
             if n[1] in h.awaited_in_relay and (n[2], n[3]) == ("v", ("raw", n[1])):
                 # X_k was awaited while running its own callback and the function got that callback's INPUT
                 key = AWAIT_RUNNING if h.aflav.get(n[1]) == "c" else "yield-of-running-deferred-sees-intermediate-result"
